@@ -64,4 +64,8 @@ CLAIMED = {
    text="Generated scheduled projects with 1-3 task reports (column subsets, time formats on project/report, leaf filter, json/csv) are rendered through the real report API 1-5 times in generated order; rows, cells, JSON/CSV agreement, written files and the cost column are recomputed from an independent observation of the schedule and the ledger, and the schedule digest must be unchanged by report generation.",
    note="Trusts the observation extraction (task attributes, ledger) as the scheduled values; column titles, sorting, hiding and other report kinds are outside the statement.",
    technique="property-based testing (Hypothesis) with a reference rendering oracle and a before/after invariant over generation sequences"),
+ "C19": dict(
+   text="The real plan entry point is run as a subprocess (private cwd and TMPDIR) over generated valid projects (file / '-' / no argument, json / csv, LF / CRLF, with and without own reports in either format, unschedulable tasks) and over the bad-input classes; exit status, stdout bytes (one JSON document with the documented keys and report_id = SHA-256 of the input bytes, or CSV), row content against an independent in-process observation, stderr/stdout separation and file-vs-stdin equality are checked.",
+   note="The expected rows come from the API observation of the same text (not from the CLI); trusts click's exit-code propagation and the subprocess harness. About 0.6 s per invocation bounds the case count.",
+   technique="property-based testing (Hypothesis) of a subprocess contract with a differential oracle (CLI vs API, file vs stdin)"),
 }
